@@ -226,8 +226,8 @@ pub fn run(ctx: &Ctx) {
     ctx.assume("a forward operation that panics ends the case (label op-panicked); it is not counted as an undo failure");
     let restricted = ctx.avoid("restricted-profiles");
     let (cases, len) = match ctx.tier {
-        Tier::Quick => (24000, 12),
-        Tier::Thorough => (600000, 40),
+        Tier::Quick => (100000, 12),
+        Tier::Thorough => (2000000, 40),
     };
     let enc = |c: &Case| serde_json::to_value(c).unwrap_or(Value::Null);
     if restricted {
